@@ -96,6 +96,18 @@ def check_case(drv, rng, stats, given=None):
             warnings.simplefilter("ignore")
             import io, contextlib
             with contextlib.redirect_stdout(io.StringIO()):
+                if given is None and rng.random() < 0.3:
+                    # the same selector object used before on other data with the same columns (a loop over folds / targets):
+                    # nothing of that first call may show in the second
+                    Xd = X.copy(deep=True)
+                    for c in Xd.columns:
+                        vals = Xd[c].tolist(); rng.shuffle(vals); Xd[c] = pd.Series(vals, index=Xd.index, dtype=Xd[c].dtype)
+                    try:
+                        sel.select(Xd, y.copy(deep=True))
+                        stats["reused_selector"] = stats.get("reused_selector", 0) + 1
+                        case["selector_used_before_on_shuffled_columns"] = True
+                    except Exception:
+                        sel = selgen.make_selector(task, cfg, quant, qual)
                 res = sel.select(X, y)
     except Exception as e:
         stats["select_errors"][type(e).__name__] = stats["select_errors"].get(type(e).__name__, 0) + 1
